@@ -214,7 +214,12 @@ type C05Episode struct {
 
 type C05Plan struct {
 	Episodes []C05Episode `json:"episodes"`
-	Tape     []int        `json:"tape"`
+	// AnnounceFail k > 0: when the k-th action is created its announcement to
+	// the coordinator gets no answer; the application keeps the proxy it got (the
+	// action is the client's from then on, the coordinator learns of it with
+	// the next branch)
+	AnnounceFail int   `json:"announce_fail,omitempty"`
+	Tape         []int `json:"tape"`
 }
 
 func genC05(seed uint64, tier string) *C05Plan {
@@ -259,6 +264,9 @@ func genC05(seed uint64, tier string) *C05Plan {
 			e.P2 = append(e.P2, q)
 		}
 		p.Episodes = append(p.Episodes, e)
+	}
+	if g.Prob(0.3) {
+		p.AnnounceFail = g.Range(1, 3)
 	}
 	return p
 }
@@ -306,7 +314,15 @@ func runC05(t *testing.T, seed uint64, planJSON []byte, tier string) (res *Resul
 			defer func() { recover(); regDone = true }()
 			for i := 0; i < 3; i++ {
 				r := &c05Recorder{sim: sim, name: fmt.Sprintf("c05-iface-%d", i), script: map[string][]string{}}
+				if plan.AnnounceFail == i+1 {
+					tc.Rules = []simtc.Rule{{Code: simtc.TRegRM, Nth: tc.CountOf(simtc.TRegRM) + 1, Action: simtc.ActSilent}}
+				}
 				p, err := tcc.NewTCCServiceProxy(&c05IfaceAction{r})
+				tc.Rules = nil
+				if err != nil && plan.AnnounceFail == i+1 && p != nil {
+					sim.Fault("tc-announcement-of-an-action-unanswered")
+					err = nil
+				}
 				if err != nil {
 					return
 				}
